@@ -214,6 +214,8 @@ def c12(ctx, api):
                                          cfg(constants={'Emit': 'TRUE', 'Prop': '"C12"', 'MaxN': maxn}), timeout=3000)
     acc.add('GenSlice: n<=%d, every (start,stop,step) in absent/[-n-2,n+2]/64-bit limits, arrays and strings, 3 followers' % maxn,
             st, summ)
+    st, summ = api['run_tlc_to_harness'](ctx, 'align', 'GenAlign', cfg(constants={'Emit': 'TRUE', 'Prop': '"C12"', 'MaxK': 34 if thorough else 26}), timeout=1500)
+    acc.add('GenAlign: slices (and other position-sensitive operations) on strings with one 2/3/4-byte character after k = 0..%d ASCII letters' % (34 if thorough else 26), st, summ)
     return acc.result(RULE_PINNED, extra={'bounds': {'max_length': maxn}})
 
 
@@ -287,6 +289,8 @@ def c11(ctx, api):
     st, summ = api['run_tlc_to_harness'](ctx, 'str', 'GenStr',
                                          cfg(constants={'Emit': 'TRUE', 'Prop': '"C11"', 'MaxLen': n}), timeout=3000)
     acc.add('GenStr: all strings of length <= %d over {a, e-acute, U+0301, euro, U+FFFD, emoji} x ~170 string operations' % n, st, summ)
+    st, summ = api['run_tlc_to_harness'](ctx, 'align', 'GenAlign', cfg(constants={'Emit': 'TRUE', 'Prop': '"C11"', 'MaxK': 34 if thorough else 26}), timeout=1500)
+    acc.add('GenAlign: position-sensitive string operations with a multi-byte character at every offset 0..%d' % (34 if thorough else 26), st, summ)
     tv = api['run_trace_validation'](ctx, 'unicode-traces', 3000 if thorough else 800, ctx['seed'], corpus=False, mode='unicode')
     acc.add_traces('trace validation: 30 string operations on random strings of <= 7 code points over 12 symbols (1-4 bytes, combining mark, '
                    'U+FFFD, U+10000), recorded from the real Search and checked by TLC', tv)
